@@ -19,6 +19,12 @@ Objects are numbered in creation order (meshes and caller arrays alike). ops:
   ["attr", m, cont, a, [values]]                integer attribute "a<a>" on container cont of mesh m, keys 0..len-1
   ["attr_edit", m, cont, a, key, value]         m.<cont>.get_attribute("a<a>")[key] = value
   ["elem_edit", m, "edges"|"faces"|"cells", k]  element k replaced by a cyclic shift of itself (m.<cont>[k] = ...)
+  ["grow", m, [x,y,z]]                          the mesh grows through its public containers: one vertex, and an edge to it
+                                                (polyline) / a triangle on its first edge with corners and edges (surface);
+                                                then m.connectivity.clear()
+  ["conn", m, clear]                            (after connectivity.clear() when clear) every connectivity answer of m:
+                                                edge_id of every edge and of a non-edge, vertex_to_vertices, face_id,
+                                                vertex_to_faces - reported raw, the oracle compares them with m's OWN containers
   ["copy", m, copy_attributes, copy_connectivity]
   ["merge", [m, ...]]
   ["translate", m, t]       t = [x,y,z] | ["slot", obj, i] (the very object stored in that slot is passed)
@@ -38,6 +44,7 @@ step : {"ok": true, "new": null | {"kind": 0..3|-1 (array), "edges": [...], "fac
      | {"ok": false, "err": [type, message]}        (the history stops there)
 Numbers are binary64 and travel as JSON floats (repr round-trips exactly).
 """
+import enum
 import json
 import os
 import sys
@@ -88,6 +95,78 @@ def attr_state(o):
             out.append([ci, int(name[1:]), vals])
             ids.append([ci, int(name[1:]), id(at), id(at._data)])
     return out, ids
+
+
+def graph_state(objs):
+    """object graph: [i, j, what] when live mesh i reaches live mesh j through its instance attributes (a back-reference
+    to ANOTHER mesh), and [i, j, what] when i and j reach one and the same mutable sub-object (shared state)"""
+    import mouette
+    live = {id(o): i for i, o in enumerate(objs) if not isinstance(o, np.ndarray)}
+    reach = {}
+    back = []
+    for i, o in enumerate(objs):
+        if isinstance(o, np.ndarray):
+            continue
+        seen = {}
+        todo = [(o, "mesh", 0)]
+        while todo:
+            x, path, d = todo.pop()
+            for k, v in (vars(x).items() if hasattr(x, "__dict__") else []):
+                if v is None or isinstance(v, (int, float, str, bool, tuple, frozenset, bytes, type, enum.Enum)):
+                    continue
+                pth = path + "." + k
+                if id(v) in live and live[id(v)] != i:
+                    back.append([i, live[id(v)], pth])
+                    continue
+                if id(v) in live or id(v) in seen:
+                    continue
+                mod = type(v).__module__ or ""
+                if mod.startswith("mouette"):
+                    seen[id(v)] = pth
+                    if d < 3:
+                        todo.append((v, pth, d + 1))
+                elif isinstance(v, (dict, list, set, np.ndarray)):
+                    seen[id(v)] = pth
+        reach[i] = seen
+    shared = []
+    ks = sorted(reach)
+    for a in range(len(ks)):
+        for b in range(a + 1, len(ks)):
+            common = set(reach[ks[a]]) & set(reach[ks[b]])
+            for c in sorted(common, key=lambda c: reach[ks[a]][c])[:3]:
+                shared.append([ks[a], ks[b], reach[ks[a]][c]])
+    return back, shared
+
+
+def conn_answers(o):
+    """raw answers of the connectivity of o (the oracle compares them with o's own containers)"""
+    c = o.connectivity
+    k = kind_of(o)
+    n = len(o.vertices)
+    E = [sorted(int(a) for a in e) for e in o.edges]
+    ans = {"edge_id": [], "non_edge": [], "v2v": [], "face_id": [], "v2f": []}
+
+    def plain(x):
+        return None if x is None else int(x)
+    for a, b in E:
+        ans["edge_id"].append(plain(c.edge_id(a, b)))
+    es = {tuple(e) for e in E}
+    non = [(a, b) for a in range(min(n, 6)) for b in range(a + 1, min(n, 6)) if (a, b) not in es][:4]
+    ans["non_edge"] = [[a, b, plain(c.edge_id(a, b))] for a, b in non]
+    for v in range(n):
+        try:
+            ans["v2v"].append(sorted(int(x) for x in c.vertex_to_vertices(v)))
+        except KeyError:
+            ans["v2v"].append(None)        # an isolated vertex has no entry
+    if k >= 2:
+        for f in o.faces:
+            ans["face_id"].append(plain(c.face_id(*[int(a) for a in f])))
+        for v in range(n):
+            try:
+                ans["v2f"].append(sorted(int(x) for x in c.vertex_to_faces(v)))
+            except KeyError:
+                ans["v2f"].append(None)
+    return ans
 
 
 def elem_state(o):
@@ -230,6 +309,7 @@ def run_case(case, scratch):
     for n, op in enumerate(case["ops"]):
         name = op[0]
         new = None
+        conn = None
         try:
             if name == "arr":
                 new = np.array(op[1], dtype=(float if op[2] == "f" else np.int64)).reshape((-1, 3))
@@ -313,6 +393,29 @@ def run_case(case, scratch):
                     at[k] = int(v)
             elif name == "attr_edit":
                 getattr(objs[op[1]], CONTS[op[2]]).get_attribute("a%d" % op[3])[int(op[4])] = int(op[5])
+            elif name == "grow":
+                o = objs[op[1]]
+                nv = len(o.vertices)
+                o.vertices.append(M.Vec(float(op[2][0]), float(op[2][1]), float(op[2][2])))
+                if kind_of(o) == 0:
+                    pass
+                elif kind_of(o) == 1:
+                    o.edges.append((nv - 1, nv))
+                else:
+                    a, b = [int(x) for x in o.edges[0]]
+                    nf = len(o.faces)
+                    o.faces.append((a, b, nv))
+                    for v in (a, b, nv):
+                        o.face_corners.append(v, nf)
+                    o.edges.append((a, nv))
+                    o.edges.append((b, nv))
+                o.connectivity.clear()
+            elif name == "conn":
+                o = objs[op[1]]
+                if kind_of(o) >= 1:
+                    if op[2]:
+                        o.connectivity.clear()
+                    conn = conn_answers(o)
             elif name == "elem_edit":
                 c = getattr(objs[op[1]], op[2])
                 el = list(c[int(op[3])])
@@ -360,7 +463,9 @@ def run_case(case, scratch):
                 raise ValueError("unknown op " + name)
             if new is not None:
                 objs.append(new)
-            steps.append({"ok": True, "new": info if new is not None else None, "objs": snapshot(objs)})
+            back, shared = graph_state(objs)
+            steps.append({"ok": True, "new": info if new is not None else None, "objs": snapshot(objs),
+                          "backrefs": back, "shared": shared, "conn": conn})
         except Exception as ex:  # noqa: an exception is an observation; the history stops
             steps.append({"ok": False, "err": [type(ex).__name__, str(ex)[:200]]})
             break
